@@ -89,28 +89,36 @@ def canon(path):
 
 
 def contraction_chain(t, ne, min_interfaces=3):
-    """True iff the mesh contains a connected run of `min_interfaces` or more two-point BORDER interfaces that would be
-    contracted (both ends in fewer than three cells, fewer than two cells in common), or a closed ring of them.  Runs of two
+    """True iff the mesh contains a cluster of `min_interfaces` or more two-point BORDER interfaces that would be contracted
+    (both ends in fewer than three cells, fewer than two cells in common), or a closed ring of them.  Two such interfaces
+    belong to one cluster when they share a vertex or when ONE two-point interface of any kind joins an end of the one to an
+    end of the other (the contractions are done one after the other on stale neighbourhood information).  Clusters of two
     (the tops of two neighbouring cells) are contracted correctly by the package and are no excuse for anything."""
-    two = [vp for vp, ep in t.paths if len(vp) == 2 and len(vp) <= ne and len(t.vcells[vp[0]]) < 3 and len(t.vcells[vp[1]]) < 3
-           and len(t.vcells[vp[0]] & t.vcells[vp[1]]) < 2]
-    adj = {}
-    for a, b in two:
-        adj.setdefault(a, set()).add(b)
-        adj.setdefault(b, set()).add(a)
-    seen = set()
-    for x in adj:
-        if x in seen:
-            continue
-        comp, st = set(), [x]
-        while st:
-            y = st.pop()
-            if y in comp:
-                continue
-            comp.add(y)
-            st += list(adj[y] - comp)
-        seen |= comp
-        nif = sum(1 for a, b in two if a in comp)
-        if nif >= min_interfaces or (nif >= len(comp) and nif >= 2):
+    two = [tuple(vp) for vp, ep in t.paths if len(vp) == 2 and len(vp) <= ne and len(t.vcells[vp[0]]) < 3
+           and len(t.vcells[vp[1]]) < 3 and len(t.vcells[vp[0]] & t.vcells[vp[1]]) < 2]
+    if len(two) < 2:
+        return False
+    links = {}
+    for vp, ep in t.paths:
+        if len(vp) == 2:
+            links.setdefault(vp[0], set()).add(vp[1])
+            links.setdefault(vp[1], set()).add(vp[0])
+    parent = list(range(len(two)))
+
+    def find(i):
+        while parent[i] != i:
+            i = parent[i]
+        return i
+    for i, a in enumerate(two):
+        near = set(a) | set().union(*[links.get(x, set()) for x in a])
+        for j in range(i + 1, len(two)):
+            if near & set(two[j]):
+                parent[find(i)] = find(j)
+    comps = {}
+    for i in range(len(two)):
+        comps.setdefault(find(i), []).append(two[i])
+    for members in comps.values():
+        verts = {x for m in members for x in m}
+        if len(members) >= min_interfaces or (len(members) >= 2 and len(members) >= len(verts)):
             return True
     return False
